@@ -1,4 +1,397 @@
 /- Helper lemmas for C17 (ErrorTree): representation invariant of `Tree.insert`/`Tree.build`. -/
 import JS.Errors
 namespace JS
+namespace Tree
+
+/-! ### association-list primitives -/
+
+/-- dictionary lookup in a node's `errors` (same recursion as `JS.Props.C17.lookupErr`) -/
+def lookupE (k : Option Str) : List (Option Str × Err) → Option Err
+  | [] => none
+  | (k', e) :: rest => if k' = k then some e else lookupE k rest
+
+theorem lookupE_setError (k k' : Option Str) (e : Err) (l : List (Option Str × Err)) :
+    lookupE k (setError k' e l) = if k' = k then some e else lookupE k l := by
+  induction l with
+  | nil => simp [setError, lookupE]
+  | cons a l ih =>
+    obtain ⟨k'', e''⟩ := a
+    simp only [setError]
+    by_cases h1 : k'' = k'
+    · subst h1
+      by_cases h2 : k'' = k <;> simp [lookupE, h2]
+    · by_cases h2 : k' = k
+      · subst h2
+        simp [lookupE, h1, ih]
+      · simp [lookupE, h1, h2, ih]
+
+theorem length_setError (k : Option Str) (e : Err) (l : List (Option Str × Err)) :
+    (setError k e l).length = l.length + if (lookupE k l).isSome then 0 else 1 := by
+  induction l with
+  | nil => simp [setError, lookupE]
+  | cons a l ih =>
+    obtain ⟨k'', e''⟩ := a
+    by_cases h1 : k'' = k
+    · simp [setError, lookupE, h1]
+    · simp [setError, lookupE, h1, ih]
+      omega
+
+theorem lookupChild_setChild (p q : PathElem) (t : Tree) (ch : List (PathElem × Tree)) :
+    lookupChild q (setChild p t ch) = if p = q then some t else lookupChild q ch := by
+  induction ch with
+  | nil => simp [setChild, lookupChild]
+  | cons a ch ih =>
+    obtain ⟨r, t'⟩ := a
+    simp only [setChild]
+    by_cases h1 : r = p
+    · subst h1
+      by_cases h2 : r = q <;> simp [lookupChild, h2]
+    · by_cases h2 : p = q
+      · subst h2
+        simp [lookupChild, h1, ih]
+      · simp [lookupChild, h1, h2, ih]
+
+theorem mem_keys_setChild (p x : PathElem) (t : Tree) (ch : List (PathElem × Tree)) :
+    x ∈ (setChild p t ch).map (·.1) ↔ x = p ∨ x ∈ ch.map (·.1) := by
+  induction ch with
+  | nil => simp [setChild]
+  | cons a ch ih =>
+    obtain ⟨r, t'⟩ := a
+    by_cases h1 : r = p
+    · subst h1
+      simp [setChild]
+    · simp only [setChild, h1, if_false, List.map_cons, List.mem_cons, ih]
+      constructor
+      · rintro (h | h | h) <;> simp [h]
+      · rintro (h | h | h) <;> simp [h]
+
+theorem nodup_keys_setChild (p : PathElem) (t : Tree) (ch : List (PathElem × Tree))
+    (h : (ch.map (·.1)).Nodup) : ((setChild p t ch).map (·.1)).Nodup := by
+  induction ch with
+  | nil => simp [setChild]
+  | cons a ch ih =>
+    obtain ⟨r, t'⟩ := a
+    rw [List.map_cons, List.nodup_cons] at h
+    by_cases h1 : r = p
+    · subst h1
+      simpa [setChild] using h
+    · simp only [setChild, h1, if_false, List.map_cons, List.nodup_cons]
+      refine ⟨?_, ih h.2⟩
+      rw [mem_keys_setChild]
+      rintro (h2 | h2)
+      · exact h1 h2
+      · exact h.1 h2
+
+theorem mem_keys_iff_lookupChild (x : PathElem) (ch : List (PathElem × Tree)) :
+    x ∈ ch.map (·.1) ↔ (lookupChild x ch).isSome = true := by
+  induction ch with
+  | nil => simp [lookupChild]
+  | cons a ch ih =>
+    obtain ⟨r, t'⟩ := a
+    by_cases h1 : r = x
+    · simp [lookupChild, h1]
+    · have h2 : ¬ x = r := fun h => h1 h.symm
+      simp [lookupChild, h1, h2, ih]
+
+@[simp] theorem totalErrors_empty : totalErrors empty = 0 := by
+  simp [empty, totalErrors, totalErrorsList]
+
+theorem totalErrorsList_setChild (p : PathElem) (t : Tree) (ch : List (PathElem × Tree)) :
+    totalErrorsList (setChild p t ch) + totalErrors ((lookupChild p ch).getD empty)
+      = totalErrorsList ch + totalErrors t := by
+  induction ch with
+  | nil => simp [setChild, lookupChild, totalErrorsList]
+  | cons a ch ih =>
+    obtain ⟨r, t'⟩ := a
+    by_cases h1 : r = p
+    · simp [setChild, lookupChild, totalErrorsList, h1]
+      omega
+    · simp [setChild, lookupChild, totalErrorsList, h1]
+      omega
+
+/-! ### the node at a path (an absent node reads as `empty`, like `defaultdict`) -/
+
+def walkD : Tree → List PathElem → Tree
+  | t, [] => t
+  | t, p :: ps => walkD ((lookupChild p t.children).getD empty) ps
+
+@[simp] theorem walkD_nil (t : Tree) : walkD t [] = t := rfl
+
+theorem walkD_cons (t : Tree) (x : PathElem) (ps : List PathElem) :
+    walkD t (x :: ps) = walkD ((lookupChild x t.children).getD empty) ps := rfl
+
+@[simp] theorem walkD_empty (p : List PathElem) : walkD empty p = empty := by
+  induction p with
+  | nil => rfl
+  | cons x ps ih => simpa [walkD_cons, empty, children, lookupChild] using ih
+
+theorem walk_eq_some_walkD {t : Tree} {p : List PathElem} {n : Tree}
+    (h : walk t p = some n) : walkD t p = n := by
+  induction p generalizing t with
+  | nil => simpa [walk] using h
+  | cons x ps ih =>
+    rw [walk] at h
+    rw [walkD_cons]
+    split at h
+    · next c hc => rw [hc]; exact ih h
+    · cases h
+
+theorem walk_empty_isSome (p : List PathElem) : (walk empty p).isSome = decide (p = []) := by
+  cases p <;> simp [walk, empty, children, lookupChild]
+
+theorem walk_append (t : Tree) (p q : List PathElem) :
+    walk t (p ++ q) = (walk t p).bind (fun n => walk n q) := by
+  induction p generalizing t with
+  | nil => simp [walk]
+  | cons x ps ih =>
+    simp only [List.cons_append, walk]
+    split
+    · exact ih _
+    · rfl
+
+/-! ### one insertion -/
+
+theorem walk_insert_isSome (e : Err) (i : Option Json) (path : List PathElem) (t : Tree)
+    (p : List PathElem) :
+    (walk (insert e i path t) p).isSome = ((walk t p).isSome || decide (p <+: path)) := by
+  induction path generalizing t p with
+  | nil =>
+    obtain ⟨errs, ch, j⟩ := t
+    cases p with
+    | nil => simp [walk]
+    | cons x ps => simp [insert, walk, children]
+  | cons y path ih =>
+    obtain ⟨errs, ch, j⟩ := t
+    cases p with
+    | nil => simp [walk]
+    | cons x ps =>
+      simp only [insert, walk, children, lookupChild_setChild]
+      by_cases hxy : y = x
+      · subst hxy
+        simp only [if_true, ih]
+        cases hl : lookupChild y ch with
+        | some c => simp [List.cons_prefix_cons]
+        | none =>
+          simp only [Option.getD_none, walk_empty_isSome, List.cons_prefix_cons, true_and,
+            Option.isSome_none, Bool.false_or]
+          by_cases hps : ps = []
+          · subst hps; simp
+          · simp [hps]
+      · have hxy' : ¬ x = y := fun h => hxy h.symm
+        simp [hxy, hxy', List.cons_prefix_cons]
+
+theorem walkD_insert_errors (e : Err) (i : Option Json) (path : List PathElem) (t : Tree)
+    (p : List PathElem) :
+    (walkD (insert e i path t) p).errors
+      = if p = path then setError e.kw e (walkD t p).errors else (walkD t p).errors := by
+  induction path generalizing t p with
+  | nil =>
+    obtain ⟨errs, ch, j⟩ := t
+    cases p with
+    | nil => simp [insert, errors]
+    | cons x ps => simp [insert, walkD_cons, children]
+  | cons y path ih =>
+    obtain ⟨errs, ch, j⟩ := t
+    cases p with
+    | nil => simp [insert, errors]
+    | cons x ps =>
+      simp only [insert, walkD_cons, children, lookupChild_setChild]
+      by_cases hxy : y = x
+      · subst hxy
+        simp [ih]
+      · have hxy' : ¬ x = y := fun h => hxy h.symm
+        simp [hxy, hxy']
+
+theorem walkD_insert_inst (e : Err) (i : Option Json) (path : List PathElem) (t : Tree)
+    (p : List PathElem) :
+    (walkD (insert e i path t) p).inst = if p = path then i else (walkD t p).inst := by
+  induction path generalizing t p with
+  | nil =>
+    obtain ⟨errs, ch, j⟩ := t
+    cases p with
+    | nil => simp [insert, inst]
+    | cons x ps => simp [insert, walkD_cons, children]
+  | cons y path ih =>
+    obtain ⟨errs, ch, j⟩ := t
+    cases p with
+    | nil => simp [insert, inst]
+    | cons x ps =>
+      simp only [insert, walkD_cons, children, lookupChild_setChild]
+      by_cases hxy : y = x
+      · subst hxy
+        simp [ih]
+      · have hxy' : ¬ x = y := fun h => hxy h.symm
+        simp [hxy, hxy']
+
+theorem walkD_insert_nodup (e : Err) (i : Option Json) (path : List PathElem) (t : Tree)
+    (h : ∀ p, (walkD t p).keys.Nodup) (p : List PathElem) :
+    (walkD (insert e i path t) p).keys.Nodup := by
+  induction path generalizing t p with
+  | nil =>
+    obtain ⟨errs, ch, j⟩ := t
+    cases p with
+    | nil => simpa [insert, keys, children] using h []
+    | cons x ps => simpa [insert, walkD_cons, children] using h (x :: ps)
+  | cons y path ih =>
+    obtain ⟨errs, ch, j⟩ := t
+    cases p with
+    | nil =>
+      simp only [insert, walkD_nil, keys, children]
+      exact nodup_keys_setChild _ _ _ (by simpa [keys, children] using h [])
+    | cons x ps =>
+      simp only [insert, walkD_cons, children, lookupChild_setChild]
+      by_cases hxy : y = x
+      · subst hxy
+        simp only [if_true, Option.getD_some]
+        exact ih _ (fun q => by simpa [walkD_cons, children] using h (y :: q)) ps
+      · simpa [hxy, walkD_cons, children] using h (x :: ps)
+
+theorem totalErrors_insert (e : Err) (i : Option Json) (path : List PathElem) (t : Tree) :
+    totalErrors (insert e i path t)
+      = totalErrors t + if (lookupE e.kw (walkD t path).errors).isSome then 0 else 1 := by
+  induction path generalizing t with
+  | nil =>
+    obtain ⟨errs, ch, j⟩ := t
+    simp only [insert, totalErrors, length_setError, walkD_nil, errors]
+    by_cases hs : (lookupE e.kw errs).isSome = true <;> simp [hs] <;> omega
+  | cons y path ih =>
+    obtain ⟨errs, ch, j⟩ := t
+    simp only [insert, totalErrors, walkD_cons, children]
+    have h1 := totalErrorsList_setChild y (insert e i path ((lookupChild y ch).getD empty)) ch
+    have h2 := ih ((lookupChild y ch).getD empty)
+    by_cases hs : (lookupE e.kw (((lookupChild y ch).getD empty).walkD path).errors).isSome = true <;>
+      simp [hs] at h2 ⊢ <;> omega
+
+/-! ### the whole tree -/
+
+theorem rev_ind {α : Type _} {motive : List α → Prop} (nil : motive [])
+    (append_singleton : ∀ l a, motive l → motive (l ++ [a])) (l : List α) : motive l := by
+  have h : ∀ r : List α, motive r.reverse := by
+    intro r
+    induction r with
+    | nil => exact nil
+    | cons a r ih => simpa using append_singleton _ a ih
+  simpa using h l.reverse
+
+theorem build_nil : build [] = empty := rfl
+
+theorem build_append_singleton (es : List Err) (e : Err) :
+    build (es ++ [e]) = insert e (e.info.map (·.inst)) e.path (build es) := by
+  simp [build, List.foldl_append]
+
+theorem walk_build_isSome_iff (es : List Err) (p : List PathElem) :
+    (walk (build es) p).isSome = true ↔ p = [] ∨ ∃ e ∈ es, p <+: e.path := by
+  induction es using rev_ind with
+  | nil => simp [build_nil, walk_empty_isSome]
+  | append_singleton es e ih =>
+    rw [build_append_singleton, walk_insert_isSome, Bool.or_eq_true, ih, decide_eq_true_iff]
+    simp only [List.mem_append, List.mem_singleton]
+    constructor
+    · rintro ((h | ⟨e', he', h⟩) | h)
+      · exact Or.inl h
+      · exact Or.inr ⟨e', Or.inl he', h⟩
+      · exact Or.inr ⟨e, Or.inr rfl, h⟩
+    · rintro (h | ⟨e', he' | he', h⟩)
+      · exact Or.inl (Or.inl h)
+      · exact Or.inl (Or.inr ⟨e', he', h⟩)
+      · subst he'; exact Or.inr h
+
+theorem build_errors (es : List Err) (p : List PathElem) (k : Option Str) :
+    lookupE k (walkD (build es) p).errors
+      = (es.filter (fun e => decide (e.path = p) && decide (e.kw = k))).getLast? := by
+  induction es using rev_ind with
+  | nil => rw [build_nil, walkD_empty]; simp [empty, errors, lookupE]
+  | append_singleton es e ih =>
+    rw [build_append_singleton, walkD_insert_errors, List.filter_append]
+    by_cases hp : p = e.path
+    · subst hp
+      simp only [if_true, lookupE_setError, ih]
+      by_cases hk : e.kw = k
+      · simp [hk]
+      · simp [hk]
+    · have hp' : ¬ e.path = p := fun h => hp h.symm
+      simp [hp, hp', ih]
+
+theorem build_inst (es : List Err) (p : List PathElem) :
+    (walkD (build es) p).inst
+      = ((es.filter (fun e => decide (e.path = p))).getLast?).bind
+          (fun e => e.info.map (·.inst)) := by
+  induction es using rev_ind with
+  | nil => rw [build_nil, walkD_empty]; simp [empty, inst]
+  | append_singleton es e ih =>
+    rw [build_append_singleton, walkD_insert_inst, List.filter_append]
+    by_cases hp : p = e.path
+    · subst hp
+      simp
+    · have hp' : ¬ e.path = p := fun h => hp h.symm
+      simp [hp, hp', ih]
+
+theorem build_nodup (es : List Err) (p : List PathElem) :
+    (walkD (build es) p).keys.Nodup := by
+  induction es using rev_ind generalizing p with
+  | nil => rw [build_nil, walkD_empty]; simp [empty, keys, children]
+  | append_singleton es e ih =>
+    rw [build_append_singleton]
+    exact walkD_insert_nodup _ _ _ _ ih p
+
+/-! ### counting -/
+
+theorem nodup_eraseDups {α : Type _} [BEq α] [LawfulBEq α] (l : List α) : l.eraseDups.Nodup := by
+  suffices h : ∀ n, ∀ l : List α, l.length ≤ n → l.eraseDups.Nodup from h _ l (Nat.le_refl _)
+  intro n
+  induction n with
+  | zero =>
+    intro l hl
+    have : l = [] := List.length_eq_zero_iff.mp (Nat.le_zero.mp hl)
+    subst this; simp
+  | succ n ih =>
+    intro l hl
+    cases l with
+    | nil => simp
+    | cons a as =>
+      rw [List.eraseDups_cons, List.nodup_cons]
+      refine ⟨by simp, ih _ ?_⟩
+      have := List.length_filter_le (fun b => !b == a) as
+      simp only [List.length_cons] at hl
+      omega
+
+theorem length_eraseDups_perm {α : Type _} [BEq α] [LawfulBEq α] {l l' : List α}
+    (h : l.Perm l') : l.eraseDups.length = l'.eraseDups.length := by
+  apply List.Perm.length_eq
+  rw [List.perm_ext_iff_of_nodup (nodup_eraseDups l) (nodup_eraseDups l')]
+  intro a
+  simp [h.mem_iff]
+
+theorem build_totalErrors (es : List Err) :
+    (build es).totalErrors = ((es.map fun e => (e.path, e.kw)).eraseDups).length := by
+  induction es using rev_ind with
+  | nil => simp [build_nil]
+  | append_singleton es e ih =>
+    rw [build_append_singleton, totalErrors_insert, ih, build_errors, List.map_append,
+      List.eraseDups_append, List.length_append]
+    congr 1
+    by_cases hm : (e.path, e.kw) ∈ es.map fun e => (e.path, e.kw)
+    · have h1 : List.removeAll [(e.path, e.kw)] (es.map fun e => (e.path, e.kw)) = [] := by
+        simpa [List.removeAll] using hm
+      rw [List.map_singleton, h1]
+      obtain ⟨e', he', heq⟩ := List.mem_map.mp hm
+      have : e' ∈ es.filter (fun x => decide (x.path = e.path) && decide (x.kw = e.kw)) := by
+        simp only [Prod.mk.injEq] at heq
+        simp [List.mem_filter, he', heq.1, heq.2]
+      cases hf : es.filter (fun x => decide (x.path = e.path) && decide (x.kw = e.kw)) with
+      | nil => rw [hf] at this; cases this
+      | cons a l => simp [List.getLast?_cons]
+    · have h1 : List.removeAll [(e.path, e.kw)] (es.map fun e => (e.path, e.kw))
+          = [(e.path, e.kw)] := by
+        simpa [List.removeAll] using hm
+      rw [List.map_singleton, h1]
+      have hf : es.filter (fun x => decide (x.path = e.path) && decide (x.kw = e.kw)) = [] := by
+        rw [List.filter_eq_nil_iff]
+        intro x hx hpx
+        apply hm
+        simp only [Bool.and_eq_true, decide_eq_true_iff] at hpx
+        exact List.mem_map.mpr ⟨x, hx, by rw [hpx.1, hpx.2]⟩
+      simp [hf, List.eraseDups_cons]
+
+end Tree
 end JS
